@@ -449,6 +449,8 @@ class Rewriter:
 
     def aliases(self, b):
         """`let X = E.as_ref();` / `let X = { E.as_ref() };` / `let X = &E.as_ref().F;` -> substituted away."""
+        # `{ E.as_ref() }.f` (an `unsafe { .. }` block used as a receiver) is `E.as_ref().f`
+        b = self.sub('R4:block-receiver', r'\{\s*([\w.()]+?\.as_ref\(\))\s*\}(?=\.)', r'\1', b)
         while True:
             m = re.search(r'let (\w+) = (?:\{\s*)?([\w.()]+?)\.as_ref\(\)(?:\s*\})?;[ \t]*\n?', b)
             if m:
@@ -725,6 +727,31 @@ class Rewriter:
         b = self.sub('R27:box-deref', r'&(?:mut )?\*\*?([a-z]\w*)\b(?![.(])', r'\1.0', b)
         return b
 
+
+    # R28: the generic slice/value fill workers of lib.rs -- typed element addresses, initialiser calls as callback shims ------------
+    def slicefill_rules(self, b):
+        c = self.cfg
+        cb = 'cb_try_fill' if c.get('cb') == 'try' else 'cb_fill'
+        b = self.sub('R2:cast', r'\.cast::<\s*T\s*>\(\)', '', b)
+        b = self.sub('R28:src-ptr', r'\bsrc\.as_ptr\(\)', 'src.addr', b)
+        b = self.sub('R28:layout-for-value', r'\bLayout::for_value\(src\)', 'layout_for_src(src)', b)
+        b = self.sub('R28:layout-for-value', r'\(Layout::for_value\((\w+)\)\) == \((\w+)\)', r'layout_eq(layout_for_result(\1), \2)', b)
+        # `let X = E?;` is by definition `match E { Ok(v) => v, Err(e) => return Err(From::from(e)) }` (same error type here)
+        b = self.sub('R13:question-mark', r'let (\w+) = ([^;?]+)\?;', r'let \1 = match \2 { Ok(v__) => v__, Err(e__) => { return Err(e__); } };', b)
+        # `for (i, val) in src.iter().cloned().enumerate()` is by definition: for i in 0..src.len(), val = src[i].clone()
+        b = self.sub('R28:enumerate-cloned', r'for \((\w+), (\w+)\) in src\.iter\(\)\.cloned\(\)\.enumerate\(\) \{',
+                     r'for \1 in 0..src.len() { let \2 = self.cb_fill(w, fs, \1, Ghost(dst), Ghost(rsv), Ghost(blk));', b)
+        b = self.map_calls(b, r'(?<![\w.:])f', lambda m_, a: 'self.%s(w, fs, %s, Ghost(dst), Ghost(rsv), Ghost(blk))' % (cb, a[0]), 'R28:callback')
+        b = self.method_to_fn(b, 'add', 'ptr_add_elems', 'R28:typed-ptr-add')
+        b = self.sub('R2:as_ptr', r'\.as_ptr\(\)', '', b)
+        # ptr::write(ADDR, VALUE): address first, then the value (a call into user code), then the store -- evaluation order made explicit
+        b = self.map_calls(b, r'(?<![\w.:])ptr::write',
+                           lambda m_, a: '{ let addr__ = %s; let v__ = %s; elem_write(w, fs, Ghost(blk), Ghost(dst), Ghost(layout.size_), addr__, v__) }' % (a[0], a[1]), 'R28:elem-write')
+        b = self.map_calls(b, r'(?<![\w.])(?:core::)?ptr::copy_nonoverlapping',
+                           lambda m_, a: 'elems_copy(w, fs, Ghost(blk), %s)' % ', '.join(a), 'R28:elems-copy')
+        b = self.map_calls(b, r'(?<![\w.:])slice::from_raw_parts_mut', lambda m_, a: 'mk_slice(%s)' % ', '.join(a), 'R28:mk-slice')
+        return b
+
     # R20: RawVec growth -- the arena seen through its Alloc interface as a ghost "buffer owned" state -----------------
     def rawvecgrow_rules(self, b):
         b = self.sub('R20:use-stmt', r'(?m)^\s*use crate::AllocErr;\s*$', '', b)
@@ -871,6 +898,8 @@ class Rewriter:
             b = self.map_calls(b, r'(?<![\w.:])ptr::copy', lambda m_, a: 'slot_copy(vs, %s)' % ', '.join(a[:2]), 'R21:slot-copy')
             b = self.map_calls(b, r'(?<![\w.:])ptr::write', lambda m_, a: 'slot_copy(vs, %s)' % ', '.join(reversed(a[:2])), 'R21:slot-copy')
             b = self.sub('R21:needs_drop', r'\bmem::needs_drop::<\s*T\s*>\(\)', 'NEEDS_DROP()', b)
+        if kind == 'slicefill':
+            b = self.slicefill_rules(b)
         if kind == 'chunkiter':
             # R24: the safe chunk iterator: the slice it builds is the (address, length) pair, checked to lie inside a held block
             b = self.sub('R24:raw-next', r'\bself\.raw\.next\(\)', 'self.raw.next(w)', b)
